@@ -221,12 +221,7 @@ def rule_wca(ctx, rule='R10.w'):
                 if o == 'eq' and (a.is_zero() or N.subs(a, {'r': SPEC.WCA_RCUT}).is_zero()):
                     continue
                 bad.append('ordering %s: %s is not the perfect square %s' % (o, N.show(a), N.show(b)))
-    binds = [e for e in w['events'] if e['kind'] == 'bind' and e['target'] == 'self.rcut']
-    rc = w['obj'].attrs.get('rcut')
-    if not isinstance(rc, Num) or P.is_pw(rc.t) or not rc.t.equals(SPEC.WCA_RCUT):
-        bad.append('self.rcut after calculate is %r, not 2^(1/6) sigma' % (rc,))
-    if not binds or not [e for e in w['events2'] if e['kind'] == 'bind' and e['target'] == 'self.rcut']:
-        bad.append('rcut is not recomputed from the current sigma in every call (sigma may be defaulted later)')
+    # (that the cut follows a *later* change of sigma is decided semantically by R10.h, not by looking for a re-binding)
     if bad:
         ctx.violation(rule, cls.qualname, 'wca', '; '.join(bad), f.loc())
     else:
@@ -254,6 +249,9 @@ def rule_purity(ctx, rule='R10.p'):
                     bad.append('in-place write to %s at %s (%s)' % (e['target'], e['loc'], e.get('via')))
                 elif e['kind'] == 'unknown-call':
                     bad.append('unknown call %s' % e['target'])
+                elif e['kind'] == 'dtype-cast' and e['target'] == 'r':
+                    bad.append('the result buffer is allocated with the dtype of r (np.*_like(r) without dtype) and filled by a '
+                               'store at %s: on an integer grid (e.g. Domain(dr=1)) the potential is truncated to integers' % e['loc'])
             for res in (w['res'], w['res2']):
                 if res is w['r'] or getattr(res, 'base', None) is w['r']:
                     bad.append('returned array is r itself (or a view of it)')
@@ -309,3 +307,97 @@ def rule_contact(ctx, rule='R10.t'):
     if len(set(forms.values())) > 1:
         ctx.violation(rule, 'hard-core family', 'inconsistent-contact', 'core comparisons differ between potentials: %s' % forms)
     ctx.floor(rule, n, 3, 'core-mask comparison sites in hard-core potentials')
+
+
+# ---------------------------------------------------------------------------------------------
+# R10.h  evaluation histories
+# ---------------------------------------------------------------------------------------------
+def _build(prog, cls, val, ip, sigma_sym='sigma'):
+    params, _ = valuations(cls)
+    kw = {}
+    for p in params:
+        if p in val:
+            v = val[p]
+            kw[p] = NONE if v is None else (Const(v) if v is True or v is False else Num(ip.declare(p)))
+        else:
+            kw[p] = Num(ip.declare(p))
+    if 'sigma' in kw and sigma_sym != 'sigma':
+        kw['sigma'] = Num(ip.declare(sigma_sym))
+    o = ip.construct(cls, [], kw)
+    o.origin = 'self'
+    return o
+
+
+def _hist_run(prog, cls, val, mode, preset):
+    ip = Interp(prog)
+    ip.preset = list(preset)
+    for s_ in ('r', 'r1', 'junk'):
+        ip.declare(s_, 'curve')
+    calc = lambda o, arr: ip.call(ip.find_method(o, 'calculate'), [arr], {})
+    if mode == 'fresh':
+        o = _build(prog, cls, val, ip)
+        res = calc(o, Arr(R, 'r', ip))
+    elif mode == 'sigma-reassigned':     # evaluated, then the contact distance is changed (diameter sweep), evaluated again
+        o = _build(prog, cls, val, ip, sigma_sym='sigma1')
+        calc(o, Arr(R, 'r_first_call', ip))
+        ip.set_attr(o, 'sigma', Num(S), None)
+        res = calc(o, Arr(R, 'r', ip))
+    elif mode == 'other-grid-before':
+        o = _build(prog, cls, val, ip)
+        calc(o, Arr(N.sym('r1'), 'r_first_call', ip))
+        res = calc(o, Arr(R, 'r', ip))
+    elif mode == 'result-mutated':
+        o = _build(prog, cls, val, ip)
+        r1 = calc(o, Arr(R, 'r_first_call', ip))
+        if isinstance(r1, Arr):
+            r1.t = N.sym('junk')
+        res = calc(o, Arr(R, 'r', ip))
+    else:
+        raise AssertionError(mode)
+    return ip, {'res': res, 'obj': o}
+
+
+def rule_history(ctx, rule='R10.h'):
+    """u(r) returned by calculate depends only on r and the *current* parameters: after an evaluation with another
+    sigma (the contact distance is re-assigned in diameter sweeps and defaulted by PRISM.__init__), on another grid,
+    or after the caller edited the array it got back, the value is the term a freshly constructed potential returns"""
+    from ..interp import explore
+    n = 0
+    for cls in potential_classes(ctx.prog):
+        f = cls.find_method('calculate')
+        params, vals = valuations(cls)
+        for val in vals:
+            tag = _valname(val)
+            try:
+                (_, ipf, rf), = explore(lambda preset: _hist_run(ctx.prog, cls, val, 'fresh', preset))[:1]
+                tf = rf['res'].t
+            except (Unsupported, Raised, ValueError) as e:
+                ctx.undecided(rule, cls.qualname, '%s: fresh evaluation: %s' % (tag, e), f.loc())
+                continue
+            bad, und, paths = [], [], 0
+            for mode in ('sigma-reassigned', 'other-grid-before', 'result-mutated'):
+                try:
+                    worlds = explore(lambda preset: _hist_run(ctx.prog, cls, val, mode, preset))
+                except (Unsupported, Raised) as e:
+                    und.append('%s: %s' % (mode, e))
+                    continue
+                for dec, ip, r in worlds:
+                    paths += 1
+                    t = r['res'].t if isinstance(r['res'], (Arr, Num)) else None
+                    if t is None:
+                        und.append('%s: result is not an array term' % mode)
+                        continue
+                    diffs, _ = P.compare(t, tf)
+                    if diffs:
+                        v, a, b = diffs[0]
+                        bad.append('history "%s": where %s the value is %s, a fresh potential gives %s'
+                                   % (mode, P.show_val(v), N.show(a)[:120], N.show(b)[:120]))
+            n += 1
+            if bad:
+                ctx.violation(rule, cls.qualname, 'history:' + tag, '%s: %s' % (tag, '; '.join(bad[:2])), f.loc())
+            elif und:
+                ctx.undecided(rule, cls.qualname, '%s: %s' % (tag, und[0]), f.loc())
+            else:
+                ctx.holds(rule, cls.qualname, '%s: re-evaluation after sigma re-assignment / on another grid / after the result was '
+                          'edited equals a fresh potential (%d paths)' % (tag, paths), f.loc(), key=tag)
+    ctx.floor(rule, n, 8, 'potential history obligations')
